@@ -676,10 +676,12 @@ def c18(run):
 
 # ----------------------------------------------------------------------------- C04 / totality
 
-def run_worker_batches(cases, worker_cmd, per_batch=20000, batch_timeout=60, max_culprits=3):
-    """Feeds cases (dicts with id) to an isolated harness worker; a crash or a missed deadline is
-    attributed to the case that was in progress and the rest is resumed in a new worker."""
-    import subprocess
+def run_worker_batches(cases, worker_cmd, per_batch=20000, case_timeout=150, max_culprits=3):
+    """Feeds cases (dicts with id) to an isolated harness worker; a crash or a case that makes no progress
+    for `case_timeout` seconds is attributed to the case that was in progress and the rest is resumed in a
+    new worker.  The deadline is per case (time since the worker last reported anything), not per batch, so
+    that a loaded machine slows a run down without turning it into an alarm."""
+    import subprocess, threading, select
     results = {}
     pending = list(cases)
     culprits = 0
@@ -687,27 +689,42 @@ def run_worker_batches(cases, worker_cmd, per_batch=20000, batch_timeout=60, max
         batch, pending = pending[:per_batch], pending[per_batch:]
         while batch and culprits < max_culprits:
             inp = "".join(json.dumps(c) + "\n" for c in batch).encode()
-            timed_out = False
-            try:
-                p = subprocess.run([common.XTV, worker_cmd], input=inp, stdout=subprocess.PIPE, stderr=subprocess.PIPE,
-                                   timeout=batch_timeout, env=common.offline_env())
-                out, rc = p.stdout, p.returncode
-            except subprocess.TimeoutExpired as e:
-                out, rc, timed_out = e.stdout or b"", None, True
-            begun = None
-            for line in out.decode("utf-8", "replace").split("\n"):
-                if not line.strip():
-                    continue
+            p = subprocess.Popen([common.XTV, worker_cmd], stdin=subprocess.PIPE, stdout=subprocess.PIPE, stderr=subprocess.DEVNULL, env=common.offline_env())
+
+            def feed(proc=p, data=inp):
                 try:
-                    r = json.loads(line)
-                except ValueError:
-                    continue
-                if r.get("begin"):
-                    begun = r["id"]
-                else:
-                    results[r["id"]] = {"res": r["res"], "msg": r.get("msg", "")}
-                    if r["id"] == begun:
-                        begun = None
+                    proc.stdin.write(data)
+                    proc.stdin.close()
+                except (BrokenPipeError, OSError, ValueError):
+                    pass
+            threading.Thread(target=feed, daemon=True).start()
+            begun, timed_out, buf = None, False, b""
+            fd = p.stdout.fileno()
+            while True:
+                r, _, _ = select.select([fd], [], [], case_timeout)
+                if not r:
+                    timed_out = True
+                    p.kill()
+                    break
+                d = os.read(fd, 1 << 16)
+                if not d:
+                    break
+                buf += d
+                *lines, buf = buf.split(b"\n")
+                for line in lines:
+                    if not line.strip():
+                        continue
+                    try:
+                        rec = json.loads(line.decode("utf-8", "replace"))
+                    except ValueError:
+                        continue
+                    if rec.get("begin"):
+                        begun = rec["id"]
+                    else:
+                        results[rec["id"]] = {"res": rec["res"], "msg": rec.get("msg", "")}
+                        if rec["id"] == begun:
+                            begun = None
+            rc = p.wait()
             rest = [c for c in batch if c["id"] not in results]
             if not rest:
                 break
@@ -715,8 +732,7 @@ def run_worker_batches(cases, worker_cmd, per_batch=20000, batch_timeout=60, max
                 raise ToolError("worker %s ended early without a crash" % worker_cmd)
             culprit = begun if begun is not None else rest[0]["id"]
             culprits += 1
-            batch_timeout = min(batch_timeout, 20)
-            results[culprit] = {"res": "timeout" if timed_out else "signal", "msg": "worker %s (status %s)" % ("missed its deadline" if timed_out else "died", rc)}
+            results[culprit] = {"res": "timeout" if timed_out else "signal", "msg": "worker %s (status %s)" % ("made no progress for %d s" % case_timeout if timed_out else "died", rc)}
             batch = [c for c in rest if c["id"] != culprit]
     return results
 
@@ -767,9 +783,9 @@ def c04(run):
         binary = xt_dbg if i % 2 else xt_rel
         args = ["-t", c["to"]] + ([] if c["from"] == "detect" else ["-f", c["from"]])
         if c["mode"] == "slice":
-            r = cli.run_xt(binary, args + [path], timeout=20, stdout=subprocess.DEVNULL)
+            r = cli.run_xt(binary, args + [path], timeout=60, stdout=subprocess.DEVNULL)
         else:
-            r = cli.run_xt(binary, args, stdin_path=path, timeout=20, stdout=subprocess.DEVNULL)
+            r = cli.run_xt(binary, args, stdin_path=path, timeout=60, stdout=subprocess.DEVNULL)
         os.remove(path)
         resv = "timeout" if r["timeout"] else "signal" if r["signal"] else "ok" if r["exit"] == 0 else "err" if r["exit"] == 1 else "exit%s" % r["exit"]
         return {"ev": "call", "runner": "debug" if i % 2 else "release", "label": c["label"], "from": c["from"], "to": c["to"], "mode": c["mode"],
@@ -779,7 +795,7 @@ def c04(run):
     run.nontrivial += len({(r["label"], r.get("hex", str(i)), r["from"], r["to"], r["mode"], r["runner"]) for i, r in enumerate(records)})
     run.samples += [r for r in records if r["label"] != "tokens"][:3] + records[:2]
     validate_records(run, records, "XtTotal.tla", "XtTotal.cfg", "a call did not end in success or an error value", "xttotal")
-    run.assumptions += ["deadline: 60 s per batch of 20 000 in-process cases (a normal batch takes about 1 s), 20 s per binary run; after 3 crashes or missed deadlines the in-process run is cut short", "stack overflow is observed as the death of the isolated worker / binary"]
+    run.assumptions += ["deadline: 150 s without progress for one in-process case (the slowest, a 20 000-deep YAML flow mapping, takes about 3 s on an idle machine), 60 s per binary run; after 3 crashes or missed deadlines the in-process run is cut short", "stack overflow is observed as the death of the isolated worker / binary"]
     run.exhaustive = False
 
 
